@@ -58,10 +58,14 @@ SelPool == << [txt |-> "k : int[0,2]", names |-> <<"k">>],
               [txt |-> "j : id_t", names |-> <<"j">>] >>
 GuardPool == << [txt |-> "i < 2", req |-> ""], [txt |-> "x >= 1", req |-> ""], [txt |-> "i == j && x < 3", req |-> ""],
                 [txt |-> "k > 0", req |-> "k"], [txt |-> "a[i] == 0", req |-> ""], [txt |-> "pos(j)", req |-> ""],
-                [txt |-> "x >= 1 && i < 21 && j != 1", req |-> ""] >>
+                [txt |-> "x >= 1 && i < 21 && j != 1", req |-> ""], [txt |-> "(i > 0 ? j : 2) == 1", req |-> ""],
+                [txt |-> "forall(q:id_t) a[q] >= 0", req |-> ""], [txt |-> "a[i + 1] > 0 && !pos(i)", req |-> ""],
+                [txt |-> "i < 2 || j > 3 && x > 1", req |-> ""] >>
 SyncPool == <<"c!", "c?", "b!", "b?">>
-AsgPool == << [txt |-> "i = 1", req |-> "", wr |-> "i"], [txt |-> "j = i + 1, x = 0", req |-> "", wr |-> "j"], [txt |-> "i++", req |-> "", wr |-> "i"],
-              [txt |-> "a[0] = k", req |-> "k", wr |-> ""], [txt |-> "x = 0", req |-> "", wr |-> ""] >>
+AsgPool == << [txt |-> "i = 1", req |-> "", wr |-> {"i"}], [txt |-> "j = i + 1, x = 0", req |-> "", wr |-> {"j"}], [txt |-> "i++", req |-> "", wr |-> {"i"}],
+              [txt |-> "a[0] = k", req |-> "k", wr |-> {}], [txt |-> "x = 0", req |-> "", wr |-> {}],
+              [txt |-> "i = j > 1 ? 1 : 0", req |-> "", wr |-> {"i"}], [txt |-> "a[i] = a[j] + 1", req |-> "", wr |-> {}],
+              [txt |-> "i += 2, j -= 1", req |-> "", wr |-> {"i", "j"}] >>
 ProbPool == <<"2", "N", "3">>
 
 LocNames == {"Idle", "Busy", "Done"}          \* reused from template to template, as in real models
@@ -144,7 +148,7 @@ Label == /\ phase = "edges" /\ NE > 0 /\ Spend
             \/ /\ CurE.sync = 0 /\ CurE.asg = 0 /\ CurE.prob = 0 /\ CurE.src \notin BpIds(CurT)
                /\ \E k \in 1..Cap(Len(SyncPool)) : m' = [m EXCEPT !.templs[NT].edges[NE].sync = k]
             \/ /\ CurE.asg = 0 /\ CurE.prob = 0
-               /\ \E k \in 1..Cap(Len(AsgPool)) : Provides(CurE, AsgPool[k].req) /\ (AsgPool[k].wr = "" \/ ~Provides(CurE, AsgPool[k].wr)) /\ m' = [m EXCEPT !.templs[NT].edges[NE].asg = k]
+               /\ \E k \in 1..Cap(Len(AsgPool)) : Provides(CurE, AsgPool[k].req) /\ (\A w \in AsgPool[k].wr : ~Provides(CurE, w)) /\ m' = [m EXCEPT !.templs[NT].edges[NE].asg = k]
             \/ /\ CurE.prob = 0 /\ CurE.src \in BpIds(CurT)
                /\ \E k \in 1..Cap(Len(ProbPool)) : m' = [m EXCEPT !.templs[NT].edges[NE].prob = k]
          /\ UNCHANGED phase
